@@ -83,6 +83,10 @@ func c14Triple(rng *rand.Rand) ruleTriple {
 			}
 		default:
 			t.Val = c14Segmented(rng, 3, true)
+			if rng.Intn(15) == 0 {
+				// a value that begins with the letters of its own key (in/out, prefix_, suffix)
+				t.Val = t.Key + []string{"", "_", "/out", "x"}[rng.Intn(4)]
+			}
 			if t.Key != "in" && t.Key != "include" && rng.Intn(12) == 0 {
 				t.Val = []string{"=", "=="}[rng.Intn(2)] + t.Val // raw form (and a value that itself begins with '=')
 			}
